@@ -81,6 +81,9 @@ func (x *world) syncPoint(label string) bool {
 	if x.prop == "C12" {
 		x.checkC12w(label)
 	}
+	if x.prop == "C02" {
+		x.checkC02w(label)
+	}
 	if x.prop == "C16" {
 		if x.c16Checked {
 			x.env.Count("probe.checked-after-resumed-recovery")
